@@ -22,14 +22,15 @@ SourceKinds == {"src", "timer", "fb"}
 ActiveIns(n) ==
     CASE n.kind \in SourceKinds -> {}
       [] n.kind \in {"sample", "sample2", "sampleu"} -> {1}    \* sample2 / sampleu: sum2 / sumu with a passive second input
-      [] n.kind \in {"sum2", "sumu", "keymix"} -> {1, 2}
+      [] n.kind \in {"sum2", "sumu", "keymix", "lsum", "lsumv"} -> {1, 2}
       [] OTHER                  -> {1}
 
 \* indexes of the inputs that must hold a value for user code to run
 ValidIns(n) ==
     CASE n.kind \in SourceKinds -> {}
       [] n.kind \in {"sumu", "sampleu"} -> {1}
-      [] n.kind \in {"sum2", "sample", "sample2", "keymix"} -> {1, 2}
+      [] n.kind = "lsumv"       -> {}        \* a list input is valid as soon as one element is
+      [] n.kind \in {"sum2", "sample", "sample2", "keymix", "lsum"} -> {1, 2}   \* lsum: all-valid list input
       [] OTHER                  -> {1}
 
 \* does the kind produce an output at all
@@ -46,7 +47,8 @@ HasOutput(n) == n.kind \notin {"rec"}
 F(n, iv, iok, s) ==
     CASE n.kind = "pass"   -> [w |-> TRUE, v |-> iv[1], s |-> s]
       [] n.kind = "add"    -> [w |-> TRUE, v |-> iv[1] + n.k, s |-> s]
-      [] n.kind \in {"sum2", "sample2"} -> [w |-> TRUE, v |-> iv[1] + iv[2], s |-> s]
+      [] n.kind \in {"sum2", "sample2", "lsum"} -> [w |-> TRUE, v |-> iv[1] + iv[2], s |-> s]
+      [] n.kind = "lsumv" -> [w |-> TRUE, v |-> (IF iok[1] THEN iv[1] ELSE 0) + (IF iok[2] THEN iv[2] ELSE 0), s |-> s]
       [] n.kind \in {"sumu", "sampleu"} -> [w |-> TRUE, v |-> iv[1] + (IF iok[2] THEN iv[2] ELSE 0), s |-> s]
       [] n.kind = "sample" -> [w |-> TRUE, v |-> iv[2], s |-> s]
       [] n.kind = "keymix" -> [w |-> TRUE, v |-> iv[1] * 100 + iv[2], s |-> s]   \* (key, x) inside a mapped child
